@@ -927,6 +927,9 @@ def make_cplx_judge(p):
             return "last-bits-differ"
         if any(x != x or abs(x) == float("inf") for x in cg + cw):
             return "nonfinite-result"        # finite operands, overflowing / invalid intermediate on one side
+        if any(x != 0 and abs(x) < 1e-290 for x in cg + cw) and same_number(got, w, 1e-9):
+            # result in the gradual-underflow range: intermediate products are subnormal, a few more bits are lost
+            return None if finite_only else "last-bits-differ"
         return "wrong-value"
 
     return Judge(expect, verdict)
